@@ -18,10 +18,14 @@ fn ids(v: &[usize]) -> String {
     format!("[{}]", v.iter().map(|x| x.to_string()).collect::<Vec<_>>().join(","))
 }
 
-fn reads_ok(defs: &[Def], own: usize, e: &Expr, memo: bool) -> bool {
+/// `leaf(i)`: node i is a memoc node (readable by `read` ops only)
+fn reads_ok(defs: &[Def], leaf: &dyn Fn(usize) -> bool, own: usize, e: &Expr, memo: bool) -> bool {
+    let reads_ok = |defs: &[Def], own: usize, e: &Expr, memo: bool| reads_ok(defs, leaf, own, e, memo);
     match e {
         Expr::Lit(_) => true,
-        Expr::Rd(_, i) => *i < own && matches!(defs.get(*i), Some(Def::Sig(_)) | Some(Def::Memo(_))),
+        Expr::Rd(_, i) => {
+            *i < own && !leaf(*i) && matches!(defs.get(*i), Some(Def::Sig(_)) | Some(Def::Memo(_)) | Some(Def::Key(..)))
+        }
         Expr::Add(a, b) | Expr::Seq(a, b) => reads_ok(defs, own, a, memo) && reads_ok(defs, own, b, memo),
         Expr::Mulc(_, a) => reads_ok(defs, own, a, memo),
         Expr::Ite(c, t, f) => reads_ok(defs, own, c, memo) && reads_ok(defs, own, t, memo) && reads_ok(defs, own, f, memo),
@@ -70,23 +74,33 @@ impl Runner {
             return None;
         }
         let g = c.sh.lock().unwrap();
+        // disposed effects need not be current; an effect that has not run since it was paused is
+        // excused (changes made during a pause are documented as not replayed)
+        let excused = |id: usize| c.excused(id, &g.runs);
         for (id, d) in g.defs.iter().enumerate() {
             if let Def::Eff(_) = d {
-                // disposed effects need not be current; an effect that has not run since it was paused is
-                // excused (changes made during a pause are documented as not replayed)
-                if let Some(slot) = c.effs.iter().find(|s| s.node == id) {
-                    if !slot.alive || slot.paused || slot.paused_at_runs == Some(g.runs[id]) {
-                        continue;
-                    }
+                if excused(id) {
+                    continue;
                 }
+                let what = if g.is_sel(id) { "selector" } else { "effect" };
                 match &g.last[id] {
-                    None => return Some(format!("fail never-ran effect {id}")),
+                    None => return Some(format!("fail never-ran {what} {id}")),
                     Some(r) => {
                         for (x, v, _) in &r.treads {
-                            let now = scratch(&g.defs, &g.env, *x);
+                            // a key node's from-scratch value is `source() == key` (looked up through the selector)
+                            let now = scratch_deep(&g.defs, &g.env, &excused, *x);
                             if now != *v {
-                                return Some(format!("fail stale-effect effect {id} saw node {x} = {v}, now {now}"));
+                                return Some(format!("fail stale-effect {what} {id} saw node {x} = {v}, now {now}"));
                             }
+                        }
+                    }
+                }
+                // a selector that is up to date answers `selected(j)` with `j == source()`
+                if let Some(Some((first, k))) = g.sel.get(id) {
+                    for j in 0..*k {
+                        let now = scratch_deep(&g.defs, &g.env, &excused, first + j);
+                        if g.env[first + j] != now {
+                            return Some(format!("fail stale-selector {id} key {j} stored {} now {now}", g.env[first + j]));
                         }
                     }
                 }
@@ -119,6 +133,53 @@ impl Runner {
                 c.set_wrap(w);
                 "ok".into()
             }
+            ["acc", n] => {
+                let Ok(n) = n.parse::<usize>() else { return "bad-op".into() };
+                c.set_acc(n);
+                "ok".into()
+            }
+            ["memoc", k, rest @ ..] => {
+                let Ok(k) = k.parse::<i64>() else { return "bad-op".into() };
+                let mut pos = 0;
+                let Some(e) = parse_expr(rest, &mut pos) else { return "bad-op".into() };
+                let ok = {
+                    let g = c.sh.lock().unwrap();
+                    pos == rest.len() && coarse_fn(k).is_some() && reads_ok(&g.defs, &|i| g.is_leaf(i), g.defs.len(), &e, true)
+                };
+                if !ok {
+                    return "bad-op".into();
+                }
+                c.define_memoc(k, e);
+                match mode {
+                    Mode::C02 => {
+                        c.take_wakes();
+                        format!("ok ready={}", ids(&c.ready()))
+                    }
+                    _ => "ok".into(),
+                }
+            }
+            ["sel", k, rest @ ..] => {
+                let Ok(k) = k.parse::<usize>() else { return "bad-op".into() };
+                let mut pos = 0;
+                let Some(e) = parse_expr(rest, &mut pos) else { return "bad-op".into() };
+                let ok = {
+                    let g = c.sh.lock().unwrap();
+                    pos == rest.len() && (1..=8).contains(&k) && reads_ok(&g.defs, &|i| g.is_leaf(i), g.defs.len(), &e, true)
+                };
+                if !ok {
+                    return "bad-op".into();
+                }
+                // like a render effect, the source runs synchronously at creation
+                c.define_sel(k, e);
+                match mode {
+                    Mode::C02 => format!("ok {}", self.after(mode, None)),
+                    Mode::C09 => self.after(mode, None),
+                    Mode::C01 => {
+                        self.case.as_ref().unwrap().drain_log();
+                        "ok".into()
+                    }
+                }
+            }
             ["pauseall"] | ["resumeall"] => {
                 c.root_op(w[0]);
                 self.after(mode, None)
@@ -130,8 +191,9 @@ impl Runner {
                     let n = g.defs.len();
                     let ok = match &d {
                         Def::Sig(_) => true,
-                        Def::Memo(b) => reads_ok(&g.defs, n, b, true),
-                        Def::Eff(b) => reads_ok(&g.defs, n, b, false),
+                        Def::Memo(b) => reads_ok(&g.defs, &|i| g.is_leaf(i), n, b, true),
+                        Def::Eff(b) => reads_ok(&g.defs, &|i| g.is_leaf(i), n, b, false),
+                        Def::Key(..) => false,
                     };
                     (n, ok)
                 };
@@ -160,7 +222,7 @@ impl Runner {
                 }
                 match mode {
                     Mode::C02 => {
-                        hx_common::sched::take_wakes();
+                        c.take_wakes();
                         format!("ok ready={}", ids(&c.ready()))
                     }
                     _ => "ok".into(),
@@ -242,7 +304,7 @@ impl Runner {
                     verdict = Some(format!("fail glitch effect {} read {:?}", r.node, r.glitch));
                 }
                 let eff = c.effect_ids();
-                let woke: Vec<usize> = hx_common::sched::take_wakes().into_iter().filter_map(|t| eff.get(t).copied()).collect();
+                let woke: Vec<usize> = c.take_wakes().into_iter().filter_map(|t| eff.get(t).copied()).collect();
                 // lifecycle oracles: nothing runs after disposal or while paused
                 for r in &log {
                     if let Some(slot) = c.effs.iter().find(|s| s.node == r.node) {
